@@ -38,8 +38,8 @@ type env struct {
 	accB    neotest.Signer
 	// contracts
 	P1, P2, T, U, S *neotest.Contract
-	sysMethods     map[string]string // syscall name -> method of S
-	base           *baseView
+	sysMethods      map[string]string // syscall name -> method of S
+	base            *baseView
 }
 
 func newEnv(t *testing.T) *env {
